@@ -343,6 +343,26 @@ def regress_cases():
     return out
 
 
+def multi_pkg_case(rng, cid):
+    """ONE invocation over files of TWO different packages that have the same package name (cmd/alpha and cmd/beta, both
+    `package main`): whatever the generator remembers per package must be keyed by the package, not by its name.  The
+    second package declares identifiers named like the locals its injector would get."""
+    c = Case(cid)
+    mod = 'scratch/' + cid
+    c.files['cmd/alpha/k.go'] = ('package main\n\nimport "github.com/mazrean/kessoku"\n\ntype Config struct{ N int }\n\ntype Store struct{ C *Config }\n\n'
+                                 'func NewConfig() *Config { return &Config{N: 1} }\n\nfunc NewStore(c *Config) (*Store, error) { return &Store{C: c}, nil }\n\n'
+                                 'var _ = kessoku.Inject[*Store]("InitStore", kessoku.Async(kessoku.Provide(NewConfig)), kessoku.Provide(NewStore))\n\nfunc main() {}\n')
+    c.files['cmd/beta/k.go'] = ('package main\n\nimport "github.com/mazrean/kessoku"\n\ntype Config struct{ Name string }\n\ntype Service struct{ Name string }\n\n'
+                                'func config() string { return "beta" }\n\nvar store = 3\n\nconst err = "not the error variable"\n\n'
+                                'func NewConfig() (*Config, error) { return &Config{Name: config()}, nil }\n\ntype Store struct{ C *Config }\n\n'
+                                'func NewStore(c *Config) *Store { return &Store{C: c} }\n\n'
+                                'var _ = kessoku.Inject[*Service]("InitService",\n\tkessoku.Async(kessoku.Provide(NewConfig)),\n\tkessoku.Async(kessoku.Provide(NewStore)),\n'
+                                '\tkessoku.Provide(func(c *Config, s *Store) *Service { return &Service{Name: c.Name + config()} }),\n)\n\nfunc main() { _ = store; _ = err }\n')
+    c.invoke = ['cmd/alpha/k.go', 'cmd/beta/k.go']
+    c.meta.update({'kind': 'two-packages-one-name', 'multi_pkg': True, 'ninj': 1, 'nfiles': 2, 'types': ['multi-pkg']})
+    return c
+
+
 def corpus(tier, sd):
     rng = random.Random(sd * 2654435761 % (2 ** 31) + 4)
     quick = tier == 'quick'
@@ -368,6 +388,8 @@ def corpus(tier, sd):
         cases.append(transitive_case(rng, 'x%03d' % n, shadow_std=(k_ % 2 == 1), nfiles=1 + (k_ // 4) % 2, other_used=(k_ // 2) % 2 == 0, args_first=(k_ % 4 >= 2)))
         n += 1
     cases += regress_cases()
+    cases.append(multi_pkg_case(rng, 'p%03d' % n))
+    n += 1
     for k_ in range(6 if quick else 40):
         cases.append(derived_name_case(rng, 'd%03d' % n, perm=rng.randrange(120), ch_async=(k_ % 2 == 1)))
         n += 1
@@ -447,8 +469,15 @@ def classify_diag(msg):
 def run_cases(w, cli, cases, tag):
     root = w.path('adv-' + tag)
     write_cases(root, cases)
-    ids = [c.id for c in cases]
+    multi = [c.id for c in cases if c.meta.get('multi_pkg')]
+    ids = [c.id for c in cases if not c.meta.get('multi_pkg')]
+
+    def build_tree(i):
+        p_ = pl.run(['go', 'build', './%s/...' % i], cwd=root, env=pl.go_env(), timeout=900)
+        return '' if p_.returncode == 0 else p_.stderr
     pre = typecheck(root, ids)
+    for i in multi:
+        pre[i] = build_tree(i)
     broken_input = {i: e for i, e in pre.items() if e}
     if broken_input:
         raise pl.ExitTwo('harness bug: adversarial input packages do not compile on their own: ' + json.dumps(list(broken_input.items())[:2])[:1500])
@@ -460,6 +489,9 @@ def run_cases(w, cli, cases, tag):
     gres = {i: (rc, se) for i, rc, se in pl.pmap(gen, cases)}
     okids = [i for i in ids if gres[i][0] == 0]
     post = typecheck(root, okids)
+    for i in multi:
+        if gres[i][0] == 0:
+            post[i] = re.sub(r'^# \S+\n', '', build_tree(i), flags=re.M)
     return root, gres, post
 
 
